@@ -49,8 +49,13 @@ CpBad(e, k, acc) ==
        ELSE IF \E i, j \in 1..Len(cp.banks) : i # j /\ cp.banks[i] = cp.banks[j]
             THEN <<"two records held at the same time were handed the same resource bank (checkpoint after " \o cp.after \o ")">>
        ELSE CpBad(e, k + 1, acc)
+\* "unchanged" also covers what the projection does not carry as a value: the zone names reachable from the record's times
+ZnChanged(e) == LET cps == e.checkpoints IN
+  \E a, b \in 1..Len(cps) : a < b /\ \E i \in 1..Len(cps[a].open), j \in 1..Len(cps[b].open) :
+     cps[a].open[i] = cps[b].open[j] /\ cps[a].zn[i] # cps[b].zn[j]
 FailsRetain(e) == IF e.panic # "" THEN <<"panic: " \o e.panic>> ELSE IF e.err # "" THEN <<"read failed: " \o e.err>>
                   ELSE Chk(e.delivered = Len(e.inputs), "wrong number of records") \o CpBad(e, 1, <<>>)
+                       \o Chk(~ZnChanged(e), "the zone name of a retained time changed while its bank was still open")
 
 Init == l = 1 /\ rej = <<>> /\ expect = [i \in {} |-> 0] /\ skipping = FALSE
 Step ==
